@@ -502,9 +502,14 @@ func (c *IPAMController) handleNodeUpdate(kvp model.KVPair) {
 		if current, ok := c.kubernetesNodesByCalicoName[n.Name]; !ok {
 			log.Debugf("Add mapping calico node -> k8s node. %s -> %s", n.Name, kn)
 			c.kubernetesNodesByCalicoName[n.Name] = kn
+			// The node is new to us (or has come back under the same name): make sure that any
+			// allocations that we already track for it get re-evaluated against the new node,
+			// rather than with what we concluded while it was missing.
+			c.allocationState.markDirty(n.Name, "Node added")
 		} else if current != kn {
 			log.Warnf("Update mapping calico node -> k8s node. %s -> %s (previously %s)", n.Name, kn, current)
 			c.kubernetesNodesByCalicoName[n.Name] = kn
+			c.allocationState.markDirty(n.Name, "Node's Kubernetes name changed")
 		}
 	} else {
 		cnode := kvp.Key.(model.ResourceKey).Name
